@@ -15,8 +15,9 @@ import vlib, clilib
 PID = "C19"
 SIGMA = ["<", ">", "&", "\"", "'", "`", "/", "=", " ", "a", "script", "style=", "onerror=", "</div>", "</style>", "-->",
          "&lt;", "&amp;", "&#39;", "&quot", "\uff02", "\uff1c", "\uff1e", "\uff06",
-         "\\", "\\074", "\\g<0>", "{0}", "%s"]
+         "\\", "\\074", "\\g<0>", "{0}", "%s", "</SCRIPT>", "</script >"]
 MARK = "BENIGNTEXT"
+WRAPS = [None, "rgb(119, 119, 119%s)", "#777777%s", "hsl(0, 0%%, 47%%%s)", "rgba(1, 2, 3, 0.5)%s", "red %s", "RGB(%s)"]
 FW = {"\uff02": "@", "\uff1c": "$", "\uff1e": "~", "\uff06": "^"}      # placeholders used by Report.tla for the fullwidth characters
 
 
@@ -164,6 +165,11 @@ def observe(job):
     variant = (sum(sym) + len(sym) + (job[3] if len(job) > 3 else 0)) % VARIANTS
     slots = CLI_SLOTS if gen == "cli" else API_SLOTS
     text = "".join(SIGMA[k - 1] for k in sym)
+    wrap = job[4] if len(job) > 4 else 0
+    if wrap:
+        # the string sits INSIDE something that has the overall shape of a colour value (what a "looks like a colour, no need
+        # to escape" shortcut would let through): the whole value is the user's text
+        text = WRAPS[wrap] % text
     wd = tempfile.mkdtemp(prefix="verif_rep_")
     try:
         key = (gen, slot, variant)
@@ -174,7 +180,7 @@ def observe(job):
         try:
             p = render(gen, slots, slot, text, wd, variant)
         except Exception as ex:
-            return [{"gen": gen, "slot": slot, "ctx": "content", "sym": list(sym), "raw": [], "tags": 0, "benignTags": 0, "text": [],
+            return [{"gen": gen, "slot": slot, "ctx": "content", "sym": list(sym), "raw": to_model_chars(text) if wrap else [], "tags": 0, "benignTags": 0, "text": [],
                      "raised": type(ex).__name__, "given": text}]
         tags, btags = list(p.seq), list(ben.seq)
         for (where, got), (_w, bgot) in zip(extract(p, slots[slot], None), extract(ben, slots[slot], None)):
@@ -188,7 +194,7 @@ def observe(job):
                     txt = to_model_chars(mid)
                 else:
                     txt = ["<displaced>"] + list(got[:40])
-            evs.append({"gen": gen, "slot": slot + "@" + where, "ctx": ctx, "sym": list(sym), "raw": [], "tags": tags, "benignTags": btags,
+            evs.append({"gen": gen, "slot": slot + "@" + where, "ctx": ctx, "sym": list(sym), "raw": to_model_chars(text) if wrap else [], "tags": tags, "benignTags": btags,
                         "text": txt, "raised": "", "given": text})
         return evs
     finally:
@@ -204,7 +210,8 @@ def e2e(rnd, n):
     evs = []
     payloads = ["\"><img src=x onerror=alert(1)>", "</div><script>alert(1)</script>", "' onmouseover='x", "&lt;b&gt;", "a&amp;b<",
                 "x\" style=\"y", "`><svg/onload=1>", "--><b>", "&#39;<i>",
-                "\\074img src=x onerror=alert()\\076", "\\g<0>\\1", "{0}{pairs}", "%(x)s %s"]
+                "\\074img src=x onerror=alert()\\076", "\\g<0>\\1", "{0}{pairs}", "%(x)s %s",
+                "</SCRIPT><img src=x onerror=y>", "</script ><b>", "</Script\t><i>", "]]></textarea></title><u>"]
     captured = {}
     orig_gen = cmain.generate_report
 
@@ -374,6 +381,16 @@ def main():
             gen2, slots2 = (("cli", CLI_SLOTS), ("api", API_SLOTS))[(k + 1) % 2]
             jobs.append((gen2, sorted(slots2)[(k // 3) % len(slots2)], s))
             k += 1
+    # colour slots: the same strings wrapped in the overall shape of a colour value
+    colour_slots = [("cli", "bg"), ("cli", "original_text"), ("cli", "tuned_text"), ("api", "bg"), ("api", "fg"), ("api", "tuned_fg")]
+    wj = 0
+    for s_ in [x for x in chosen if 1 <= len(x) <= 2] + (chosen if t == "thorough" else []):
+        if t != "thorough" and len(s_) == 2 and wj % 7:
+            wj += 1
+            continue
+        g_, sl_ = colour_slots[wj % len(colour_slots)]
+        jobs.append((g_, sl_, s_, wj, 1 + wj % (len(WRAPS) - 1)))
+        wj += 1
     res = vlib.pool_map(observe, jobs, chunksize=16)
     evs = [e for r_ in res for e in r_]
     evs += e2e(rnd, 60 if t == "quick" else 600)
